@@ -244,6 +244,15 @@ def run(ctx):
             if fb and fb[0][2] == "true":
                 ctx.check(p.end == "return" and p.ret_shape() == "Err(SettingsError::InvalidSettingId)", "C13-d", dc.key,
                           "HTTP/2-reserved identifier -> InvalidSettingId", "a reserved identifier leads to %s" % (p.ret_shape() if p.end == "return" else p.end), "")
+            if sp and sp[0][2] == "true" and not (fb and fb[0][2] == "true") and p.end == "stop":
+                # a supported, permitted identifier: the iteration stores it, whatever its value (0 is a value like any other:
+                # MAX_FIELD_SECTION_SIZE = 0 means "send me no field sections", not "no limit")
+                others = [t for t in p.tests if t[3][0] != "discr" and not (t[3][0] == "call" and t[3][1] in (SID + "is_forbidden", SID + "is_supported")) and
+                          expr.mentions(t[3], lambda n: n[0] == "call" and pa.short(n[1]) == "get_var")]
+                ctx.check(p.has_call(FRM + "Settings::insert") and not others, "C13-d", dc.key, "every supported identifier is stored, whatever its value",
+                          "an iteration for a supported identifier %s (further conditions on the value: %s): the peer's setting is dropped and the default "
+                          "stays in force" % ("does not call insert" if not p.has_call(FRM + "Settings::insert") else "stores it only conditionally", [(t[1][:60], t[2]) for t in others]),
+                          "", None, p.describe())
             if sp and sp[0][2] == "false":
                 ctx.check(p.end == "stop" and not p.has_call(FRM + "Settings::insert"), "C13-d", dc.key, "unknown identifier ignored",
                           "an unsupported identifier leads to %s" % (p.ret_shape() if p.end == "return" else p.end), "")
